@@ -28,6 +28,11 @@ type Case struct {
 	// working directory is then unrelated to it) instead of a path relative
 	// to the working directory.
 	AbsMain bool `json:"abs_main,omitempty"`
+	// Prelude: another program, in a directory of its own (src/zzpre, importing
+	// the source package zzpredep), is evaluated on the same interpreter before
+	// the main file: what the first evaluation resolved must not leak into the
+	// resolution of the second one.
+	Prelude bool `json:"prelude,omitempty"`
 	// Files and Main are informational copies of render() and mainFile() in
 	// stored replay files (paths relative to the GOPATH root); replay
 	// re-renders the tree from Pkgs.
@@ -270,6 +275,17 @@ func (c *Case) render() map[string]string {
 	return files
 }
 
+// preludeFiles is the tree of the program evaluated first under Prelude; its
+// files are not named after those of the generated tree.
+func preludeFiles() map[string]string {
+	return map[string]string{
+		"src/zzpre/pre.go":     "package main\n\nimport _ \"zzpredep\"\n\nfunc main() {}\n",
+		"src/zzpredep/pdep.go": "package zzpredep\n\nimport \"fmt\"\n\nfunc init() { fmt.Println(\"prelude\") }\n",
+	}
+}
+
+const preludeMain = "src/zzpre/pre.go"
+
 func (c *Case) mainFile() string { return "src/" + c.Pkgs[0].Dir + "/main.go" }
 
 // lineCounts turns program output into a multiset of lines.
@@ -277,7 +293,7 @@ func lineCounts(out string) map[string]int {
 	m := map[string]int{}
 	for _, l := range strings.Split(out, "\n") {
 		l = strings.TrimRight(l, "\r")
-		if l != "" {
+		if l != "" && l != "prelude" { // the line of the program evaluated first
 			m[l]++
 		}
 	}
